@@ -190,7 +190,12 @@ func (r *runner) one(pat string) string {
 	r.info.Types[r.arg] = types.TypeAndValue{Type: types.Typ[types.String], Value: constant.MakeString(pat)}
 	r.ctx.SetPackageInfo(r.info, r.pkg)
 	r.ctx.SetFileInfo("p.go", r.file)
-	for _, w := range r.chk.Check(r.file) {
+	// a fresh checker instance: the pattern is analysed alone, nothing analysed before can influence it
+	chk, err := linter.NewChecker(r.ctx, checkerInfo())
+	if err != nil {
+		chk = r.chk
+	}
+	for _, w := range chk.Check(r.file) {
 		if rw, ok := parseWarn(w.Text, pat); ok {
 			return rw
 		}
@@ -1059,15 +1064,36 @@ func Run(tier string, seed int64, outDir string) *common.Meta {
 	}
 	meta.Distribution["call_kinds_with_diagnostics"] = reactingNames
 	meta.Distribution["call_site_runs"] = len(sites)
-	fastDiffers := 0
+	// 2c. the rewrite is a function of the pattern: what one checker instance reports for a pattern inside a
+	// file full of other patterns must be what a fresh instance reports for that pattern alone
+	alone := make([]string, len(pats))
+	dependent := 0
 	for i, p := range pats {
-		if i%7 == 0 && r.one(p) != rewrites[i] {
-			fastDiffers++
+		alone[i] = r.one(p)
+		if alone[i] == rewrites[i] {
+			continue
 		}
+		dependent++
+		// the earlier pattern of the same file with the longest common prefix: the likely source of the interference
+		best, bestLen := -1, -1
+		for j := i - 1; j >= 0 && j >= i-1500; j-- {
+			n := 0
+			for n < len(p) && n < len(pats[j]) && p[n] == pats[j][n] {
+				n++
+			}
+			if n > bestLen {
+				best, bestLen = j, n
+			}
+		}
+		w := map[string]interface{}{"pattern": p, "reported_in_batch": rewrites[i], "reported_alone": alone[i], "stream": srcOf[i]}
+		if best >= 0 {
+			w["earlier_pattern_sharing_longest_prefix"] = pats[best]
+			w["common_prefix_bytes"] = bestLen
+		}
+		meta.Fail("C11/"+checkerName+"/result-depends-on-other-patterns",
+			fmt.Sprintf("regexpSimplify reports %q for `%s` when it is analysed after other patterns in the same file, and %q when it is analysed alone", rewrites[i], p, alone[i]), w)
 	}
-	if fastDiffers > 0 {
-		meta.TieBroken = append(meta.TieBroken, fmt.Sprintf("checker result depends on how the constant reaches it: %d differences between a type-checked file and a replaced constant", fastDiffers))
-	}
+	meta.Distribution["patterns_whose_result_depends_on_the_batch"] = dependent
 
 	// 3. trees, model pass 1 (Coq), trees of pass-1 texts
 	trees := make([]string, len(pats))
@@ -1481,7 +1507,8 @@ type gen struct {
 
 func (g *gen) pick(l []string) string { return l[g.r.Intn(len(l))] }
 
-var quants = []string{"*", "+", "?", "{0,1}", "{1,}", "{0,}", "{1}", "{0}", "{2}", "{1,2}", "{2,}", "{0,2}", "{3}"}
+var quants = []string{"*", "+", "?", "{0,1}", "{1,}", "{0,}", "{1}", "{0}", "{2}", "{1,2}", "{2,}", "{0,2}", "{3}",
+	"{0,0}", "{1,1}", "{2,2}", "{2,3}", "{0,3}", "{1,3}"}
 var escapes = []string{`\d`, `\w`, `\s`, `\D`, `\W`, `\S`, `\.`, `\+`, `\,`, `\:`, `\/`, `\-`, `\n`, `\t`, `\x41`, `\075`, `\0`, `\b`, `\&`, `\=`, `\<`, `\%`, `\(`, `\]`, `\[`, `\\`, `\$`, `\^`, `\{`, `\A`, `\z`, `\B`}
 var classItems = []string{"a", "b", "c", "x", "-", "]", "^", "[", ":", "+", ",", ".", "{", "}", "0", "1", `\.`, `\-`, `\]`, `\d`, `\s`, `\w`, `\S`, `\n`,
 	"[:space:]", "[:^space:]", "[:word:]", "[:digit:]", "[:alpha:]", "[:^digit:]", "0-9", "a-c", "a-a", "a-b", "+--", ",--", "a-z", "❤", `\:`, `\,`, "|", "*", "?", "$", "(", ")", " ",
@@ -1708,7 +1735,7 @@ func generatePatterns(tier string, seed int64) ([]string, []string, map[string]i
 		}
 	}
 	lr := common.NewRand(seed, "c11-loops")
-	loopTokens := []string{"a", "b", "a", "(", ")", "(?:", ")", "|", "*", "+", "?", "*?", "+?", "??", "{2}", "{1,2}", "{2,}", "{0,1}", "c"}
+	loopTokens := []string{"a", "b", "a", "(", ")", "(?:", ")", "|", "*", "+", "?", "*?", "+?", "??", "{2}", "{1,2}", "{2,}", "{0,1}", "c", "{1,1}", "{0,0}", "{2,2}"}
 	for n, tries := 0, 0; n < 250*scale && tries < 60000*scale; tries++ {
 		k := 3 + lr.Intn(7)
 		var b strings.Builder
@@ -1740,6 +1767,44 @@ func generatePatterns(tier string, seed int64) ([]string, []string, map[string]i
 		if add(p, "mutate") {
 			n++
 		}
+	}
+	// patterns at the checker's length limit that share a long, escape-heavy prefix and differ only near the
+	// end, derived from the patterns generated so far and placed next to each other in the same file
+	pr := common.NewRand(seed, "c11-limit")
+	heavy := []string{`\.`, `\-`, `\d`, `\\`, `\/`, `\(`, `\)`, `\w`, `\[`, `\+`, "a", `\s`, `\{`, `\|`}
+	suffixes := []string{"a", "b", "  ", "x*", `\.`, "-", "[a]", "{1}", "yy*", "?"}
+	nBase := len(pats)
+	for n, tries := 0, 0; n < 60*scale && tries < 4000*scale; tries++ {
+		base := pats[pr.Intn(nBase)]
+		if len(base) > 24 {
+			continue
+		}
+		target := 54 + pr.Intn(5) // prefix+base: 54..58 bytes, the suffixes bring it to <= 60
+		var b strings.Builder
+		for b.Len()+len(base) < target {
+			t := heavy[pr.Intn(len(heavy))]
+			if b.Len()+len(base)+len(t) > target {
+				t = "a"
+			}
+			b.WriteString(t)
+		}
+		stem := b.String() + base
+		s1, s2 := suffixes[pr.Intn(len(suffixes))], suffixes[pr.Intn(len(suffixes))]
+		if s1 == s2 || len(stem)+len(s1) > 60 || len(stem)+len(s2) > 60 {
+			continue
+		}
+		if _, err := regexp.Compile(stem + s1); err != nil {
+			continue
+		}
+		if _, err := regexp.Compile(stem + s2); err != nil {
+			continue
+		}
+		if seen[stem+s1] || seen[stem+s2] {
+			continue
+		}
+		add(stem+s1, "limit")
+		add(stem+s2, "limit")
+		n++
 	}
 	return pats, src, dist
 }
